@@ -66,8 +66,8 @@ def check_script(script, source, emit, case, run_kw=None):
     problems = []
     items = list(ts.items)
     got = [(t.result, bool(t.is_persistent)) for t in items]
-    if got != assigns:
-        problems.append(("transformations-differ", f"scheme has {got[:6]} but the script assigns {assigns[:6]}"))
+    if sorted(got) != sorted(assigns):      # the scheme may list them in dependency order: compared as a multiset
+        problems.append(("transformations-differ", f"scheme has {sorted(got)[:6]} but the script assigns {sorted(assigns)[:6]}"))
     # definitions re-parse to the original
     orig_defs = [c for c in a0.children if isinstance(c, (AST.Operator, AST.DPRuleset, AST.HRuleset))]
     new_defs = []
@@ -93,8 +93,9 @@ def check_script(script, source, emit, case, run_kw=None):
                 problems.append(("definition-ast-differs", first_diff(tuple(so), tuple(sn)) or "differs"))
     # each transformation's expression re-parses to the original right-hand side
     if not problems:
-        orig_rhs = [shape(c.right) for c in a0.children if isinstance(c, (AST.Assignment, AST.PersistentAssignment))]
-        for t, o in zip(items, orig_rhs):
+        by_name = {c.left.value: shape(c.right) for c in a0.children if isinstance(c, (AST.Assignment, AST.PersistentAssignment))}
+        for t in items:
+            o = by_name.get(t.result)
             se, ae = eng.call(create_ast, f"x := {t.expression};")
             if se == "exc":
                 problems.append(("expression-does-not-reparse", f"{t.expression[:120]!r}"))
@@ -108,7 +109,8 @@ def check_script(script, source, emit, case, run_kw=None):
             sb, rb = eng.call(eng.run, script=ts, **run_kw)
             emit({"v": "ctr", "ctr": {"run_equivalence_pairs": 1}})
             if sb == "exc":
-                problems.append(("scheme-fails-to-run", f"{type(rb).__name__}: {str(rb)[:160]}"))
+                kind = "viral-propagation-definitions-not-carried" if "define viral propagation" in script else "scheme-fails-to-run"
+                problems.append((kind, f"{type(rb).__name__}: {str(rb)[:160]}"))
             else:
                 d = eng.digests_equal(eng.result_digest(rb), eng.result_digest(ra))
                 if d:
